@@ -16,8 +16,10 @@ import (
 	"verif/internal/racer"
 	"verif/internal/reqsim"
 	"verif/internal/sched"
+	"verif/internal/sendreq"
 	"verif/internal/storesim"
 	"verif/internal/subs"
+	"verif/internal/wire"
 )
 
 var checks = map[string]func(*core.Ctx){
@@ -38,6 +40,8 @@ var checks = map[string]func(*core.Ctx){
 	"C15": qevent.Run,
 	"C16": racer.Run,
 	"C17": pattern.Run,
+	"C18": wire.Run,
+	"C19": sendreq.Run,
 	"C20": legacy.Run,
 }
 
